@@ -2,6 +2,10 @@ package main
 
 import (
 	"fmt"
+	"runtime"
+	"sync"
+	"sync/atomic"
+	"verif/harness/gen"
 
 	"github.com/uhppoted/uhppote-core/encoding/bcd"
 
@@ -110,10 +114,11 @@ func c12(c *Ctx) {
 				c.Res.Violate("C12:encode:depends-on-earlier-result", fmt.Sprintf("bcd.Encode(%q) = %x after the caller overwrote the slice an earlier Encode of the same string returned; expected %x", s, deref(again), want), map[string]any{"input": s, "mode": tag}, caseNo)
 			}
 			// ... nor does growing it: append to a result, then encode other strings (an odd one first: its pad nibble must be zero)
-			if caseNo%7 == 0 {
+			if caseNo%7 == 0 || s == "" {
 				if first, ferr := bcd.Encode(s); ferr == nil && first != nil {
-					grown := append(*first, 0x99, 0x88, 0x77, 0x66, 0x55, 0x44, 0x33, 0x22)
-					_ = grown
+					kept := append([]byte{}, *first...)
+					*first = append(*first, 0x99, 0x88, 0x77, 0x66, 0x55, 0x44, 0x33, 0x22) // the caller's pointer, the caller's slice
+					defer func() { *first = kept }()
 					for _, t := range []string{"789", "20241231", s} {
 						wt, _ := refBCDEncode(t)
 						if gt, terr := bcd.Encode(t); terr != nil || gt == nil || string(*gt) != string(wt) {
@@ -121,7 +126,7 @@ func c12(c *Ctx) {
 							break
 						}
 					}
-					if string(*first) != string(want) {
+					if len(*first) < len(want) || string((*first)[:len(want)]) != string(want) {
 						c.Res.Violate("C12:encode:depends-on-earlier-result", fmt.Sprintf("the result of bcd.Encode(%q) changed to %x when later strings were encoded", s, *first), map[string]any{"input": s, "mode": tag}, caseNo)
 					}
 				}
@@ -177,6 +182,51 @@ func c12(c *Ctx) {
 		}
 	}
 
+	checkEncode("", "empty")
+	checkEncode("", "empty")
+	// ---- several goroutines decode and encode at the same time, each coming back to its own few values (a date field is decoded over
+	// and over while another goroutine decodes another one)
+	{
+		if old := runtime.GOMAXPROCS(0); old < 8 {
+			runtime.GOMAXPROCS(8)
+			defer runtime.GOMAXPROCS(old)
+		}
+		var wg sync.WaitGroup
+		var nbad atomic.Int64
+		per := c.N(30000, 300000)
+		for g := 0; g < 8; g++ {
+			wg.Add(1)
+			go func(g int) {
+				defer wg.Done()
+				rr := gen.New(c.Seed, fmt.Sprintf("C12/concurrent/%d", g), c.Batch)
+				mine := [][]byte{}
+				for k := 0; k < 3; k++ {
+					b := make([]byte, 1+rr.Pick(7))
+					for i := range b {
+						b[i] = byte(0x10*rr.Pick(10) + rr.Pick(10))
+					}
+					mine = append(mine, b)
+				}
+				for k := 0; k < per && nbad.Load() < 3; k++ {
+					b := mine[rr.Pick(len(mine))]
+					want, _ := refBCDDecode(b)
+					got, err := bcd.Decode(b)
+					if err != nil || got != want {
+						nbad.Add(1)
+						c.Res.Violate("C12:decode:concurrent", fmt.Sprintf("bcd.Decode(%x) = %q, %v (expected %q) while 8 goroutines decode their own values at the same time", b, got, err, want), map[string]any{"input": wk.Hex(b)}, -5)
+						continue
+					}
+					if enc, eerr := bcd.Encode(want); eerr != nil || enc == nil || string(*enc) != string(b) {
+						nbad.Add(1)
+						c.Res.Violate("C12:encode:concurrent", fmt.Sprintf("bcd.Encode(%q) = %x, %v (expected %x) while 8 goroutines encode their own values at the same time", want, deref(enc), eerr, b), map[string]any{"input": want}, -5)
+					}
+				}
+			}(g)
+		}
+		wg.Wait()
+		c.Res.Eval(int64(8 * per))
+		c.Res.Count("concurrent-decodes", int64(8*per))
+	}
 	// ---- exhaustive strings (the enumeration is split over batches by first symbol)
 	L := c.N(5, 6)
 	var rec func(prefix string, depth int)
